@@ -27,7 +27,7 @@ ASSUMPTIONS = [
 TIMEOUT = {"quick": 900, "thorough": 8 * 3600}
 OPTIMIZED_SHARDS = ("imp00",)  # these shards also run under python -O
 NSH = 16
-REJECT_CLASSES = ["zero_length_line_then_gap", "gap_first", "gap_middle", "gap_before_last_line", "overlap", "nonzero_start", "unknown_tagtype", "page_tagtype_without_base", "no_bf3_marker", "no_bf3_marker_and_no_section_converted", "unknown_tagtype_as_continuation_group", "unknown_tagtype_line_inside_group"]
+REJECT_CLASSES = ["zero_length_line_then_gap", "gap_first", "gap_middle", "gap_before_last_line", "overlap", "nonzero_start", "unknown_tagtype", "page_tagtype_without_base", "no_bf3_marker", "no_bf3_marker_and_no_section_converted", "unknown_tagtype_line_inside_ignored_section", "unknown_tagtype_as_continuation_group", "unknown_tagtype_line_inside_group"]
 
 
 def plan(tier, seed):
@@ -446,6 +446,29 @@ def run_import(ns, ctx, spec):
             ctx.bin("reject:" + cls)
             rp = {"kind": "reject", "text": text if len(text) < 20000 else None, "class": cls}
             import_case(ns, ctx, text, header, [s], rp, must_reject=cls)
+            continue
+        elif cls == "unknown_tagtype_line_inside_ignored_section":
+            # an ignored prepare / activate section is skipped, not exempt: a data line of an unknown tag type inside it is still an
+            # unknown tag type
+            ign = gen_ignored(rng, R.IGNORED[idx % 2])
+            while len(ign.lines) < 2:
+                ign = gen_ignored(rng, R.IGNORED[idx % 2])
+            good = gen_section(rng, ctx, bases[idx % len(bases)])
+            t_ign = ign.render([rng.randrange(100)])
+            end = max(i for i, l in enumerate(t_ign) if l.startswith(":") and l[5:7].upper() == "FF")
+            first_data = min(i for i, l in enumerate(t_ign) if l.startswith(":") and l[5:7].upper() not in ("FE", "FF"))
+            bad_line = R.data_line(77, rng.choice(R.UNKNOWN_TAGTYPES), 0x10, rng.randbytes(rng.randrange(1, 20)))[0]
+            at = end if idx % 4 < 2 else first_data + 1
+            t_ign = t_ign[:at] + [bad_line] + t_ign[at:]
+            hdr_lines = []
+            if header.get("Firmware"):
+                hdr_lines.append("##Firmware: " + R.firmware_comment(header["Firmware"][0], "ID-engine", header["Firmware"][1]))
+            hdr_lines.append("##Bf3Update: 1")
+            parts = (t_ign + good.render([rng.randrange(100)])) if idx % 8 < 4 else (good.render([rng.randrange(100)]) + t_ign)
+            text = "\n".join(hdr_lines + parts) + "\n"
+            ctx.bin("reject:" + cls)
+            rp = {"kind": "reject", "text": text if len(text) < 20000 else None, "class": cls}
+            import_case(ns, ctx, text, header, [good], rp, must_reject=cls)
             continue
         elif cls == "no_bf3_marker":
             header.pop("Bf3Update")
